@@ -95,6 +95,9 @@ unique_ptr<DiscreteDistributionInterface> BppODiscreteDistributionFormat::readDi
     while (strtok2.hasMoreToken())
       probas.push_back(TextTools::toDouble(strtok2.nextToken()));
 
+    if (values.empty())
+      throw Exception("Empty argument 'values' in Simple distribution");
+
     std::map<size_t, std::vector<double>> ranges;
 
     if (args.find("ranges") != args.end())
@@ -150,6 +153,8 @@ unique_ptr<DiscreteDistributionInterface> BppODiscreteDistributionFormat::readDi
     while (args.find("dist" + TextTools::toString(++nbd)) != args.end())
       v_nestedDistrDescr.push_back(args["dist" + TextTools::toString(nbd)]);
 
+    if (probas.empty())
+      throw Exception("Empty argument 'probas' in Mixture distribution");
     if (v_nestedDistrDescr.size() != probas.size())
       throw Exception("Number of distributions (keyword 'dist" + TextTools::toString(probas.size()) + "') do not fit the number of probabilities");
 
